@@ -57,6 +57,12 @@ class Handler(BaseHTTPRequestHandler):
             beh = srv.script.get(idx) or srv.script.get("all") or "Normal"
         path = self.path.split("?")[0]
         rng = self.headers.get("Range")
+        if path in getattr(srv, "deny", ()):
+            # a resource that exists but cannot be read by the server (Dispatch.tla: readable = FALSE)
+            srv.log.append({"i": idx, "m": method, "path": path, "range": rng or "", "beh": "Deny",
+                            "applied": "Deny", "status": 500})
+            self._reply(500, b"" if method == "HEAD" else b"<html><body>error page 500</body></html>", {}, method)
+            return
         entry = {"i": idx, "m": method, "path": path, "range": rng or "", "beh": beh, "applied": "Normal",
                  "status": 0}
         srv.log.append(entry)
@@ -185,6 +191,9 @@ class Server:
 
     def set_root(self, root):
         self.httpd.root = root
+
+    def set_deny(self, paths):
+        self.httpd.deny = set(paths)
 
     def stop(self):
         self.httpd.shutdown()
